@@ -175,6 +175,43 @@ def run(ctx):
         ctx.ob('C15.R1', 'recomputed-at-exit:' + fid[1].split('.')[-1], not dirty and bool(ex),
                'both groups are recomputed after their determinants were moved (dirty at exit: %s)'
                % dirty, cmod, cg.funcs[fid])
+    # exact undo: applying the transfer twice restores the two lists as multisets
+    # only (entries come back at the end of their list).  The lists are summed
+    # and printed in order, so the probe must also restore the order - from
+    # copies taken before the first swap - or the transfer must work in place.
+    swap_calls = sorted((c for c in calls_in(probe, nested=False) if last_attr(c) == 'swap_interactions'),
+                        key=lambda c: c.lineno)
+    in_place = not any(last_attr(c) in ('append', 'remove', 'insert', 'pop', 'extend')
+                       for c in calls_in(cmod.func(cls + '.transfer_determinant'), nested=False)
+                       if isinstance(c.func, ast.Attribute) and isinstance(c.func.value, ast.Name)
+                       and c.func.value.id.startswith('determinants'))
+    restores = False
+    if len(swap_calls) >= 2:
+        first, last = swap_calls[0], swap_calls[-1]
+        saved = [n for n in walk_no_nested(probe) if isinstance(n, ast.Assign) and n.lineno < first.lineno
+                 and any(isinstance(x, ast.Call) and call_name(x) == 'list'
+                         and '.determinants[' in norm(x) for x in ast.walk(n.value))]
+        slices = [n for n in walk_no_nested(probe) if isinstance(n, ast.Assign) and n.lineno > last.lineno
+                  and isinstance(n.targets[0], ast.Subscript) and isinstance(n.targets[0].slice, ast.Slice)
+                  and n.targets[0].slice.lower is None and n.targets[0].slice.upper is None]
+        restores = bool(saved) and bool(slices)
+    ctx.ob('C15.R1', 'swap:undo-restores-list-order', in_place or restores,
+           'the temporary swap is undone exactly: the determinant lists get their original order '
+           'back (restored from copies saved before the swap: %s; transfer works in place: %s)'
+           % (restores, in_place), cmod, swap_calls[-1] if swap_calls else probe)
+    # label and group of a moved determinant change together (the averaged table
+    # regenerates the label from the group)
+    tdf = cmod.func(cls + '.transfer_determinant')
+    lab = [n for n in walk_no_nested(tdf) if isinstance(n, ast.Assign)
+           and isinstance(n.targets[0], ast.Attribute) and n.targets[0].attr == 'label']
+    together = bool(lab) and all(any(
+        isinstance(m, ast.Assign) and isinstance(m.targets[0], ast.Attribute) and m.targets[0].attr == 'group'
+        and norm(m.targets[0].value) == norm(n.targets[0].value) for m in ast.walk(n._parent))
+        for n in lab)
+    ctx.ob('C15.R1', 'transfer:label-and-group-together', together,
+           'a determinant that is relabelled when it moves also gets the matching group reference '
+           '(Determinant.label is derived from .group wherever determinants are re-created, e.g. in '
+           'the average)', cmod, lab[0] if lab else tdf)
     # transfer_determinant: symmetric under 1 <-> 2
     td = cmod.func(cls + '.transfer_determinant')
     body = [norm(s) for s in td.body if not (isinstance(s, ast.Expr)
@@ -208,13 +245,15 @@ def run(ctx):
     ok = len(tcalls) == 2
     for c in tcalls:
         a = [norm(x) for x in c.args]
-        if len(a) != 4:
+        if len(a) not in (4, 6):
             ok = False
             continue
         g1, g2 = a[0].split('.determinants')[0], a[1].split('.determinants')[0]
         t1, t2 = a[0].split('.determinants')[-1], a[1].split('.determinants')[-1]
         if not (t1 == t2 and a[2] == g1 + '.label' and a[3] == g2 + '.label' and g1 != g2):
             ok = False
+        if len(a) == 6 and not (a[4] == g1 and a[5] == g2):
+            ok = False      # the groups handed over must be the owners of the two lists
     types = sorted(norm(c.args[0]).split("['")[-1].rstrip("']") for c in tcalls if c.args)
     ctx.ob('C15.R1', 'swap:arguments-consistent', ok and types == ['coulomb', 'sidechain'],
            'swap_interactions exchanges the coulomb and the side-chain lists of the same two '
@@ -305,6 +344,24 @@ def run(ctx):
     ctx.ob('C15.R4', 'coupling-list:writers', set(writers) <= allowed,
            'the coupling lists are written only by the constructor (empty), clone (alias) and '
            'couple_non_covalently (writers %s)' % sorted(writers), gmod, gmod.func('Group.couple_non_covalently'))
+    # the reported (averaged) table: Group.clone aliases the partner list of the
+    # first conformation that holds the group, so the marks of the other
+    # conformations never arrive and the relation is asymmetric in the report
+    # unless the averaging step rebuilds the lists in terms of averaged groups
+    mcm = prog.mod('molecular_container')
+    avg = mcm.func('MolecularContainer.average_of_conformations')
+    rebuilt = [n for n in walk_no_nested(avg) if isinstance(n, ast.Assign)
+               and isinstance(n.targets[0], ast.Attribute)
+               and n.targets[0].attr == 'non_covalently_coupled_groups'
+               and norm(n.targets[0].value) != 'self' and not norm(n.targets[0].value).endswith('conformation')]
+    clone = gmod.func('Group.clone')
+    aliases = any(isinstance(n, ast.Assign) and isinstance(n.targets[0], ast.Attribute)
+                  and n.targets[0].attr == 'non_covalently_coupled_groups'
+                  and norm(n.value) == 'self.non_covalently_coupled_groups' for n in walk_no_nested(clone))
+    ctx.ob('C15.R4', 'average:coupling-marks-rebuilt', bool(rebuilt) or not aliases,
+           'the averaged groups get partner lists built from all conformations and made of '
+           'averaged groups (clone() aliases the list of one conformation: %s; rebuilt in the '
+           'averaging step: %s)' % (aliases, bool(rebuilt)), mcm, rebuilt[0] if rebuilt else avg)
     # coupling is registered exactly when the probe reports a positive factor
     reg = [c for c in calls_in(ident) if last_attr(c) == 'couple_non_covalently']
     ican = canon(ident)
